@@ -51,7 +51,7 @@ PROPS["C01"] = dict(
 
 PROPS["C04"] = dict(
     modules=["Sth.Props.C01", "Sth.Props.C08", "Sth.Props.C04"],
-    theorems=list(CORE_RL) + ['Sth.C04_store_refines_map_partial_igc', 'Sth.C04_indexGC_stutters', 'Sth.C04_reopen_after_igc', 'Sth.C04_primaryGC_stutters'],
+    theorems=list(CORE_RL) + ['Sth.C04_store_refines_map', 'Sth.C04_store_refines_map_budget', 'Sth.C04_countersOK_of_budget', 'Sth.C04_store_refines_map_cid', 'Sth.C04_store_refines_map_partial_igc', 'Sth.C04_indexGC_stutters', 'Sth.C04_reopen_after_igc', 'Sth.C04_primaryGC_stutters', 'Sth.C04_primaryGC_stutters_reachable', 'Sth.C04_gc_cycles_invisible', 'Sth.C04_gc_idempotent_on_contents'],
     runs=[dict(engine="seq", quick=400, thorough=20000, extra=["-profile", "c04"],
                nontrivial=["igc-acted", "pgc-acted", "pgc-relocated", "igc-unlinked", "pgc-unlinked"])],
     requires_ops=["igc", "pgc"],
@@ -66,7 +66,7 @@ PROPS["C04"] = dict(
 
 PROPS["C02"] = dict(
     modules=["Sth.Props.C01", "Sth.Props.C08", "Sth.Props.C02", "Sth.Props.C04"],
-    theorems=list(CORE_RL) + ["Sth.C02_store_refines_map", "Sth.C02_snapshot_eq_rescan", "Sth.C02_reopen_preserves_observations", "Sth.C02_reopen_twice", "Sth.C02_store_refines_map_igc"],
+    theorems=list(CORE_RL) + ["Sth.C02_store_refines_map", "Sth.C02_snapshot_eq_rescan", "Sth.C02_reopen_preserves_observations", "Sth.C02_reopen_twice", "Sth.C02_store_refines_map_igc", "Sth.C02_store_refines_map_gc"],
     runs=[dict(engine="seq", quick=400, thorough=10000, extra=["-profile", "c02"], nontrivial=["reopen", "reopen-rescan", "reopen-badsnap", "paths"])],
     requires_ops=["close", "open", "paths", "rmsnap", "badsnap"],
     rule="C01-style traces with Close/reopen at arbitrary positions: with the snapshot, with the snapshot deleted, with a "
@@ -253,7 +253,7 @@ PROPS["C09"] = dict(
 PROPS["C10"] = dict(
     modules=["Sth.Props.C10", "Sth.Props.C01", "Sth.Props.C08"],
     theorems=["Sth.C10_chunk_concat", "Sth.C10_chunk_shape", "Sth.C10_remap_correct", "Sth.C10_remap_reject", "Sth.C10_remap_total"] + list(CORE_RL),
-    runs=[dict(engine="seq", quick=250, thorough=5000, extra=["-profile", "c10"], nontrivial=["multi-chunk", "legacy-freelist", "legacy-bad-offset"]),
+    runs=[dict(engine="seq", quick=250, thorough=5000, extra=["-profile", "c10"], nontrivial=["multi-chunk", "legacy-freelist", "legacy-bad-offset", "upgrade-bytes-agree"]),
           dict(engine="crash", quick=16, thorough=500, extra=["-profile", "c10"], nontrivial=["at:upgrade", "at:remap"])],
     shrink_budget=0,
     crash_lines=True,
@@ -262,7 +262,11 @@ PROPS["C10"] = dict(
          "from generated maps, and opens them with chunk limits {1,16,100,1024,default} for index and primary; after the upgrading open the "
          "chunk file sizes and every key's remapped location are compared with the Lean pure functions (chunk, remapOffset), the full "
          "directory bytes are checked by the Lean fsck, every key is read back against the map, and the model is synchronised from the "
-         "directory so that the ordinary history that follows (puts, removes, flushes, GC, reopen) is compared byte-for-byte again. Second "
+         "directory so that the ordinary history that follows (puts, removes, flushes, GC, reopen) is compared byte-for-byte again; the legacy "
+         "directory as written is handed to the byte-level Lean model of the upgrade (Sth/Model/UpgradeBytes.lean: freelist application, "
+         "re-chunking with the scratch-buffer bytes of freed records, header writes, offset remapping in place, removal pool of unmappable "
+         "entries flushed inside Open) whose output must equal the real upgraded directory file for file and byte for byte (for some "
+         "flush order of the removal pool), and the Lean mirror of the legacy writer must reproduce the legacy bytes. Second "
          "run: the crash engine captures the directory at every upgrade/remap point (plus torn chunk files) and reopens each image: the "
          "conversion must complete with the same contents. Non-trivial = distinct store split into several chunks / with freelist / with "
          "unmappable entries; crash images at upgrade or remap points.",
@@ -288,7 +292,18 @@ def race_probe(work, tier, seed):
     for i in range(n):
         procs.append(subprocess.Popen([C.HARNESS + ".race", "gen", "-engine", "stress", "-seed", str(seed * 100 + i), "-n", "1", "-tier", tier],
                                       env=env, stdout=subprocess.PIPE, stderr=subprocess.DEVNULL, text=True))
-    outs = [p.communicate(timeout=600)[0] for p in procs]
+    outs, hung = [], 0
+    for p in procs:
+        try:
+            outs.append(p.communicate(timeout=600)[0])
+        except subprocess.TimeoutExpired:
+            # never leave a stress process behind; a run that does not finish is reported, not ignored
+            p.kill()
+            try:
+                outs.append(p.communicate(timeout=30)[0] or "")
+            except subprocess.TimeoutExpired:
+                outs.append("")
+            hung += 1
     reports = []
     for f in sorted(glob.glob(os.path.join(logdir, "r.*"))):
         txt = open(f, errors="replace").read()
@@ -301,6 +316,9 @@ def race_probe(work, tier, seed):
         by.setdefault(sig(r), r)
     viol = []
     from .runner import new_replay_path
+    if hung:
+        return dict(breaks=[("race-stress", "%d of %d stress runs did not finish within 600 s (deadlock or livelock under the race detector)" % (hung, n))],
+                    evaluations=n, summary={"race_stress_runs": n, "hung": hung})
     for k, r in list(by.items())[:4]:
         path = new_replay_path("C16", "violation")
         with open(path, "w") as f:
